@@ -295,11 +295,11 @@ func (fc *FnCtx) binop(x *ssa.BinOp) Val {
 	var r string
 	switch x.Op {
 	case token.ADD:
-		r = wrap(t, fmt.Sprintf("(+ %s %s)", a.S(), b.S()))
+		r = fc.arith(t, fmt.Sprintf("(+ %s %s)", a.S(), b.S()), x)
 	case token.SUB:
-		r = wrap(t, fmt.Sprintf("(- %s %s)", a.S(), b.S()))
+		r = fc.arith(t, fmt.Sprintf("(- %s %s)", a.S(), b.S()), x)
 	case token.MUL:
-		r = wrap(t, fmt.Sprintf("(* %s %s)", a.S(), b.S()))
+		r = fc.arith(t, fmt.Sprintf("(* %s %s)", a.S(), b.S()), x)
 	case token.QUO:
 		fc.oblige("div", x.Name(), fmt.Sprintf("(not (= %s 0))", b.S()), x.Pos(), nil)
 		if signed {
@@ -1060,4 +1060,26 @@ func (fc *FnCtx) anchorLines(text string) []int {
 	}
 	sort.Ints(out)
 	return out
+}
+
+// arith applies the machine semantics of +, -, * on type t to the mathematical result m.
+//   opt nowrap:   unsigned (and narrow signed) results must not wrap - an obligation per operation, so a
+//                 silently wrong value is reported instead of being modelled;
+//   opt wrap-int: signed 64-bit results wrap around (two's complement) instead of being treated as
+//                 mathematical integers (the default, listed as an assumption).
+func (fc *FnCtx) arith(t types.Type, m string, x *ssa.BinOp) string {
+	bits, signed, ok := intBits(t)
+	if !ok {
+		return m
+	}
+	if fc.con != nil && fc.con.Opts["nowrap"] != "" {
+		if !(signed && bits == 64) {
+			fc.oblige("nowrap", x.Name(), fmt.Sprintf("(= %s %s)", wrap(t, m), m), x.Pos(), nil)
+		}
+	}
+	if signed && bits == 64 && fc.con != nil && fc.con.Opts["wrap-int"] != "" {
+		h := pow2s(63)
+		return fmt.Sprintf("(- (mod (+ %s %s) %s) %s)", m, h, pow2s(64), h)
+	}
+	return wrap(t, m)
 }
